@@ -277,6 +277,17 @@ class World:
                             'up_ago': op['up_ago']})
         self.faults['srv_resized'] += 1
 
+    def op_relimit(self, op):
+        """The limits of an affinity are redeclared for its next generation
+        of instances: only while no instance of the affinity exists (the
+        instances of one affinity share their limits)."""
+        if any(spec['aff'] == op['aff'] for spec in self.truth.apps.values()):
+            return
+        self.truth.limits[op['aff']] = {k: int(v) for k, v in
+                                        op['limits'].items()}
+        self.faults['affinity_relimited'] = \
+            self.faults.get('affinity_relimited', 0) + 1
+
     def op_revalidate(self, op):
         """What Loader.set_server_valid_until does when a server comes up:
         the server is (re)assigned to a reboot bucket of its partition, by
@@ -708,7 +719,7 @@ OP_WEIGHTS = [
     ('blacklist', 3), ('renew', 2), ('unschedule', 2), ('advance', 8),
     ('tick', 1), ('cycle', 26), ('probe', 0), ('reload_cell', 2),
     ('add_pod', 1), ('lease_squeeze', 2), ('stale_mark', 2),
-    ('revalidate', 1), ('reboot_forward', 2),
+    ('revalidate', 1), ('reboot_forward', 2), ('relimit', 2),
 ]
 
 
@@ -1042,6 +1053,38 @@ class Generator:
         if not names:
             return None
         return {'op': 'group_remove', 'name': self.rng.choice(names)}
+
+    def g_relimit(self, world):
+        """All instances of an affinity leave, its limits are redeclared
+        (often the same values on other levels), new instances arrive."""
+        rng = self.rng
+        aff = rng.choice(self.config['aff_names'])
+        old = dict(world.truth.limits.get(aff, {}))
+        if old and rng.random() < 0.6:
+            levels = list(LEVELS)
+            rng.shuffle(levels)
+            new = dict(zip(levels, sorted(old.values())))
+        else:
+            new = {lv: rng.choice([0, 1, 1, 2, 2, 3, 4])
+                   for lv in LEVELS if rng.random() < 0.4}
+        mine = sorted(n for n, spec in world.truth.apps.items()
+                      if spec['aff'] == aff)
+        ops = [{'op': 'remove_app', 'name': n} for n in mine]
+        ops.append({'op': 'relimit', 'aff': aff, 'limits': new})
+        template = None
+        for _ in range(rng.randint(1, 4)):
+            spec = self._app_spec(world)
+            if spec is None:
+                break
+            spec['aff'] = aff
+            spec['group'] = None
+            if template is not None and rng.random() < 0.5:
+                spec['demand'] = list(template)
+            template = spec['demand']
+            ops.append(spec)
+        ops.append({'op': 'cycle'})
+        self.follow.extend(ops[1:])
+        return ops[0]
 
     def g_blacklist(self, world):
         name = self._some_app(world)
